@@ -219,6 +219,13 @@ def check(rep, ctx):
     for row in special_name_rows(ctx):
         rep.check(R_SN, row["ok"], construct=row["construct"], stmt=row["stmt"], message=row["message"], file=row["file"], line=row["line"])
     from ..gen_tables import custom_type_rows
+    from ..gen_tables import error_code_rows
+    R_EC = rep.rule("C04-c-error-codes", "the error-code generator turns every row of the listing into its member line (the loop body of "
+                    "generate_error_codes.main evaluated on representative rows: the negative code, code 0, ordinary codes)", floor=5,
+                    necessary_because="a filter such as `if not row.split()[0].isdigit(): continue` drops `-1 UNKNOWN_SERVER_ERROR`")
+    for row in error_code_rows(ctx):
+        rep.check(R_EC, row["ok"], construct="codegen.generate_error_codes:main", stmt=row["case"], message=row["message"],
+                  file="codegen/generate_error_codes.py", line=0)
     R_CT = rep.rule("C04-c-custom-types", "the definition emitted for every shipped custom type is a subclass of the shipped base", floor=5)
     for row in custom_type_rows(ctx):
         rep.check(R_CT, row["ok"], construct="codegen.generate_schema:CustomTypeDef.get_definition", stmt=row["case"], message=row["message"],
